@@ -262,9 +262,13 @@ def l6(ctx):
         for m, neg in (("is_map_anon", True), ("is_map_file", False)):
             bb = ctx.facts.one(r"^allocator::Allocator::%s$" % m)
             e2, r2 = ctx.eval(bb, no_inline=(r"Allocator::is_ondisk$", r"Allocator::is_map$"))
-            rets = [r for r in r2.log if r["kind"] == "ret0" and not r["chain"]]
-            s = " ".join(show(r["value"]) for r in rets) + " " + " ".join(show(c) for c in r2.conds.values())
-            ok = "is_map(self)" in s and "is_ondisk(self)" in s and (("not(is_ondisk(self)" in s) == neg)
+            # the exact condition under which the accessor answers true, whatever the shape (&&, if, match on a pair of the two answers)
+            import dnf as D
+            def lit(x):
+                t = x[1]
+                return (t[1].split("::")[-1] if tag(t) == "call" and t[2] == (SELF,) else show(t), x[2]) if x[0] == "bool" else x
+            T = set(frozenset(lit(x) for x in c) for c in D.bool_dnf(e2, r2, bb, r2.ret, True))
+            ok = T == {frozenset({("is_map", True), ("is_ondisk", not neg)})}
             yield Ob(key_of("C16-L6", bb.path, "conjunction"), ok, "%s() = is_map() && %sis_ondisk()" % (m, "!" if neg else ""), bb.loc())
     # Memory getters return their field
     for g, fld in (("freelist", "freelist"), ("magic_version", "magic_version"), ("version", "version"), ("flag", "flag"), ("data_offset", "data_offset"), ("reserved", "reserved"),
